@@ -188,7 +188,9 @@ package helper
 //@ ensures[C16] len(result) == len(other)
 //@ ensures[C16] forall k :: 0 <= k && k < len(result) ==> result[k] == from + k
 //@ ensures[C16,C03] consumed(other) == len(other) && closed(result)
+//@ ensures[C04] forall k :: 0 <= k && k < len(result) ==> hor(result, k) <= hor(other, k)
 //@ loop#0 invariant consumed(other) == sent(c) && i == from + sent(c) && !closed(c)
+//@ loop#0 invariant forall k :: 0 <= k && k < sent(c) ==> hor(c, k) <= hor(other, k)
 //@ loop#0 invariant forall k :: 0 <= k && k < sent(c) ==> c[k] == from + k
 
 //@ func SliceToChan
@@ -314,6 +316,13 @@ package helper
 //@ requires consumed(c) == 0
 //@ ensures[C16,C02] len(result) == len(c)
 //@ ensures[C16,C01] forall k :: 0 <= k && k < len(result) ==> result[k] == sqrt(c[k])
+//@ ensures[C16,C03] consumed(c) == len(c) && closed(result)
+//@ ensures[C04] forall k :: 0 <= k && k < len(result) ==> hor(result, k) <= hor(c, k)
+
+//@ func Pow
+//@ requires consumed(c) == 0
+//@ ensures[C16,C02] len(result) == len(c)
+//@ ensures[C16,C01] forall k :: 0 <= k && k < len(result) ==> result[k] == powr(c[k], y)
 //@ ensures[C16,C03] consumed(c) == len(c) && closed(result)
 //@ ensures[C04] forall k :: 0 <= k && k < len(result) ==> hor(result, k) <= hor(c, k)
 
